@@ -133,6 +133,8 @@ cpdef np.ndarray _make_stride(shape, bint cstyle=1):
     """
     cdef intp_t a, d, L = len(shape), stride = 1
     cdef np.ndarray[intp_t, ndim=1] res = _np_empty_1D(L, intp_num)
+    if L == 0:
+        return res  # no axis: writing ``res[L-1]`` / ``res[0]`` would be out of bounds (bounds checks are off)
     if cstyle:
         res[L-1] = 1
         for a in range(L-1, 0, -1):
